@@ -32,6 +32,7 @@ pub fn plan() -> Plan {
         thorough_histories: 80000,
         s5: Some((2, 30, s4common::s5_default(false, 3))),
         enumerate_session_end: None,
+        enumerate_symbols: None,
     }
 }
 
